@@ -1,7 +1,393 @@
-from ..model import AnalysisError
+"""C13 - conveyor stalls: non-accumulating belts stop, accumulating belts close up (partial, structural half).
+
+  R1 wait-without-signal: every event attribute a reachable process waits on is succeeded by some reachable statement;
+  R2 interrupt handlers of the belt move processes subtract the elapsed time from the remaining time and wait for
+     the resume event before the next timeout; resume installs a fresh event before firing the old one;
+  R3 set_conveyor_state interrupts on {MOVING, IDLE} → {STALLED_*} and resumes on the converse; the state machine of
+     `behaviour` covers empty / moving / stalled and changes state only through set_conveyor_state;
+  R4 on a non-empty belt the put-grant is control dependent on the accumulation gate (or on the exit being free);
+  R5 `.interrupt(` is called only by the belt stores, on processes they track.
+"""
+from __future__ import annotations
+
+import ast
+
+from .. import paths, storewalk, tables
+from ..model import AnalysisError, Project, reachable, self_attr, walk_no_nested
+from ..report import Result
+from ..tables import RP
+from .common import site, src
+
 PROP = 'C13'
 LEVEL = 'other'
 
+MOVING = {'MOVING_STATE', 'IDLE_STATE'}
+STALLED = {'STALLED_ACCUMULATING_STATE', 'STALLED_NONACCUMULATING_STATE'}
 
-def run(p, tier):
-    raise AnalysisError('rule module for C13 not implemented yet (fail closed)')
+
+def run(p: Project, tier: str) -> Result:
+    r = Result(PROP)
+    r.explanation = ('The stall machinery is wired: every awaited event has a signaller, interrupted travel resumes with the remaining time, the '
+                     'state machine interrupts/resumes on the right transitions, admission is gated while stalled, only the belt interrupts its '
+                     'own processes. Positions, touching without overlap and exact resumption are real-valued timer arithmetic: not decided.')
+    r.rule('C13.R1', 'every awaited event attribute has a reachable succeed()', 8)
+    r.rule('C13.R2', 'interrupt handler: remaining -= elapsed; wait for resume; fresh resume event before firing the old', 6)
+    r.rule('C13.R3', 'state transitions interrupt / resume; behaviour covers empty / moving / stalled; single writer of the conveyor state', 6)
+    r.rule('C13.R4', 'non-empty belt: put-grant depends on the accumulation gate or a free exit', 2)
+    r.rule('C13.R5', 'interrupt() only from belt stores on their tracked processes', 3)
+    r.not_decided = ['item positions, "touch without overlapping", admission up to capacity while accumulating, exactness of resumption (timer arithmetic)']
+    reach = reachable(p)
+    check_wait_signal(p, reach, r)
+    check_handlers(p, r)
+    check_transitions(p, r)
+    check_gate(p, r)
+    check_interrupters(p, reach, r)
+    return r
+
+
+# ------------------------------------------------------------------------------------------- R1
+def event_attr_of(n):
+    """'X' for expressions self.X / self.<a>.X used as an awaited event"""
+    if isinstance(n, ast.Attribute):
+        if self_attr(n):
+            return n.attr
+        if isinstance(n.value, ast.Attribute) and self_attr(n.value):
+            return n.attr
+    return None
+
+
+def event_owner(p, fi, n):
+    """class key owning the event attribute in `self.X` / `self.a.X` as seen from function fi"""
+    if fi.cls is None:
+        return None
+    me = (fi.module, fi.cls)
+    if self_attr(n):
+        return me
+    if isinstance(n, ast.Attribute) and isinstance(n.value, ast.Attribute) and self_attr(n.value):
+        ks = p.attr_class(me, n.value.attr)
+        return ks[0] if ks else None
+    return None
+
+
+def is_event_attr(p, owner, attr):
+    """the attribute is (re)armed with env.event() somewhere in the owner's hierarchy"""
+    if owner is None:
+        return False
+    for fi, val, _ in p.self_attr_sites(owner).get(attr, []):
+        if isinstance(val, ast.Call) and isinstance(val.func, ast.Attribute) and val.func.attr == 'event':
+            return True
+    return False
+
+
+def related(p, a, b):
+    if a is None or b is None:
+        return False
+    return a == b or a in [c.key for c in p.mro(b)] or b in [c.key for c in p.mro(a)]
+
+
+def check_wait_signal(p, reach, r):
+    waited = {}          # (owner, attr) -> (fi, node)
+    for fi in p.all_functions():
+        if fi.key not in reach or not fi.is_generator or fi.cls is None:
+            continue
+        r.analysed_functions.add(fi.key)
+        listvars = {}
+        for n in walk_no_nested(fi.node):
+            if isinstance(n, ast.Assign) and isinstance(n.value, ast.List) and len(n.targets) == 1 and isinstance(n.targets[0], ast.Name):
+                listvars.setdefault(n.targets[0].id, []).extend(n.value.elts)
+        for n in walk_no_nested(fi.node):
+            if not isinstance(n, ast.Yield) or n.value is None:
+                continue
+            cands = []
+            v = n.value
+            if event_attr_of(v):
+                cands.append(v)
+            if isinstance(v, ast.Call) and isinstance(v.func, ast.Attribute) and v.func.attr in ('any_of', 'all_of') and v.args:
+                a = v.args[0]
+                elts = a.elts if isinstance(a, ast.List) else listvars.get(a.id, []) if isinstance(a, ast.Name) else []
+                cands += [e for e in elts if event_attr_of(e)]
+            if isinstance(v, ast.Name):
+                # `x = self.env.any_of(event_list)` ; yield x
+                for m in walk_no_nested(fi.node):
+                    if isinstance(m, ast.Assign) and any(isinstance(t, ast.Name) and t.id == v.id for t in m.targets) and isinstance(m.value, ast.Call) \
+                            and isinstance(m.value.func, ast.Attribute) and m.value.func.attr in ('any_of', 'all_of') and m.value.args:
+                        a = m.value.args[0]
+                        elts = a.elts if isinstance(a, ast.List) else listvars.get(a.id, []) if isinstance(a, ast.Name) else []
+                        cands += [e for e in elts if event_attr_of(e)]
+            for c in cands:
+                owner = event_owner(p, fi, c)
+                if is_event_attr(p, owner, event_attr_of(c)):
+                    waited.setdefault((owner, event_attr_of(c)), (fi, n))
+    # signallers: X.succeed() on any receiver ending in .X, or on a local alias of self.X
+    signalled = set()
+    for fi in p.all_functions():
+        if fi.key not in reach:
+            continue
+        alias = {}
+        for n in walk_no_nested(fi.node):
+            if isinstance(n, ast.Assign) and len(n.targets) == 1 and isinstance(n.targets[0], ast.Name) and event_attr_of(n.value):
+                alias[n.targets[0].id] = (event_owner(p, fi, n.value), event_attr_of(n.value))
+        for n in walk_no_nested(fi.node):
+            if isinstance(n, ast.Call) and isinstance(n.func, ast.Attribute) and n.func.attr == 'succeed':
+                tgt = n.func.value
+                if event_attr_of(tgt):
+                    signalled.add((event_owner(p, fi, tgt), event_attr_of(tgt)))
+                elif isinstance(tgt, ast.Name) and tgt.id in alias:
+                    signalled.add(alias[tgt.id])
+    for (owner, attr), (fi, n) in sorted(waited.items(), key=lambda x: (x[1][0].key, x[0][1])):
+        mod = fi.module
+        key = f'{fi.key}::waits-on({attr})'
+        if any(a == attr and related(p, o, owner) for o, a in signalled):
+            r.ok('C13.R1', key, f'`{attr}.succeed()` exists in reachable code', src(mod), n.lineno)
+        else:
+            r.fail('C13.R1', key, f'the process waits on `{attr}` but no reachable statement ever calls `{attr}.succeed()`: it sleeps for ever '
+                                  f'(the state machine behind it never leaves this state)', src(mod), n.lineno)
+
+
+# ------------------------------------------------------------------------------------------- R2
+def belt_store_classes(p):
+    out = []
+    for s in tables.discover_stores(p):
+        if 'move_to_ready_items' in s.methods and any(isinstance(n, ast.ExceptHandler) for n in ast.walk(s.methods['move_to_ready_items'].node)):
+            out.append(s)
+    return out
+
+
+def check_handlers(p, r):
+    seen = set()
+    for s in belt_store_classes(p):
+        fi = s.methods['move_to_ready_items']
+        if fi.key in seen:
+            continue
+        seen.add(fi.key)
+        r.analysed_functions.add(fi.key)
+        loops = [n for n in walk_no_nested(fi.node) if isinstance(n, ast.While) and isinstance(n.test, ast.Compare) and isinstance(n.test.left, ast.Name)]
+        k = 0
+        for lp in loops:
+            rem = lp.test.left.id
+            tries = [x for x in lp.body if isinstance(x, ast.Try)]
+            if not tries:
+                continue
+            k += 1
+            t = tries[0]
+            key = f'{fi.key}::phase{k}-interrupt-handler'
+            why = None
+            body_txt = [ast.unparse(x).replace(' ', '') for x in t.body]
+            st_assign = [b for b in body_txt if b.endswith('=self.env.now')]
+            if not st_assign:
+                why = 'the try block does not record the start time of the wait'
+            start = st_assign[0].split('=')[0] if st_assign else '?'
+            if not any(b == f'yieldself.env.timeout({rem})' for b in body_txt):
+                why = why or f'the wait is not `timeout({rem})`'
+            hs = [h for h in t.handlers if h.type is not None and 'Interrupt' in ast.unparse(h.type)]
+            if not hs:
+                why = why or 'no `except simpy.Interrupt` handler'
+            else:
+                h = hs[0]
+                htxt = [ast.unparse(x).replace(' ', '') for x in h.body]
+                el = [x for x in htxt if x.endswith(f'=self.env.now-{start}')]
+                if not el:
+                    why = why or f'the handler does not compute the elapsed time `now − {start}`'
+                elname = el[0].split('=')[0] if el else '?'
+                if f'{rem}-={elname}' not in htxt:
+                    why = why or f'the handler does not subtract the elapsed time from `{rem}`: after a stall the item travels its full time again'
+                ys = [i for i, x in enumerate(htxt) if x == 'yieldself.resume_event']
+                if not ys:
+                    why = why or 'the handler does not wait for self.resume_event: the item keeps moving during the stall'
+                elif f'{rem}-={elname}' in htxt and htxt.index(f'{rem}-={elname}') > ys[0]:
+                    why = why or 'the remaining time is reduced after the resume wait (elapsed would include the stall)'
+            (r.ok if not why else r.fail)('C13.R2', key, f'{rem} -= now − {start}; yield resume_event; loop re-waits the rest' if not why else why,
+                                          src(fi.module), lp.lineno)
+        if k < 2:
+            r.fail('C13.R2', f'{fi.key}::two-phase-travel', f'only {k} interruptible travel phase(s) found (expected 2)', src(fi.module), fi.node.lineno)
+        rs = s.methods.get('resume_all_move_processes')
+        key = f'{s.ci.module}::{s.ci.name}.resume_all_move_processes::fresh-event-before-firing'
+        if rs is None:
+            r.fail('C13.R2', key, 'resume_all_move_processes missing', src(s.ci.module), s.ci.node.lineno)
+        elif rs.key not in seen:
+            seen.add(rs.key)
+            r.analysed_functions.add(rs.key)
+            txt = [ast.unparse(x).replace(' ', '') for x in rs.node.body if not (isinstance(x, ast.Expr) and isinstance(x.value, (ast.Constant, ast.Call)) and 'print' in ast.unparse(x))]
+            txt = [t for t in txt if not t.startswith("'") and not t.startswith('"')]
+            ok = len(txt) >= 3 and txt[0].endswith('=self.resume_event') and txt[1] == 'self.resume_event=self.env.event()' and txt[2] == txt[0].split('=')[0] + '.succeed()'
+            (r.ok if ok else r.fail)('C13.R2', key, 'old = resume_event; resume_event = fresh; old.succeed()' if ok else
+                                     'resume does not install a fresh event before firing the old one: a process interrupted again waits on an already fired event',
+                                     src(rs.module), rs.node.lineno)
+
+
+# ------------------------------------------------------------------------------------------- R3
+def names_in(node):
+    return {c.value for c in ast.walk(node) if isinstance(c, ast.Constant) and isinstance(c.value, str)}
+
+
+def check_transitions(p, r):
+    for ci in tables.edge_classes(p):
+        if ci.name != 'ConveyorBelt':
+            continue
+        fi = ci.methods.get('set_conveyor_state')
+        key = f'{ci.label}.set_conveyor_state::interrupt-and-resume'
+        if fi is None:
+            r.fail('C13.R3', key, 'set_conveyor_state missing', src(ci.module), ci.node.lineno)
+            continue
+        r.analysed_functions.add(fi.key)
+        why = None
+        top = [n for n in fi.node.body if isinstance(n, ast.If)]
+        found_int = found_res = False
+        for n in top:
+            cur = n
+            while cur is not None:
+                t = cur.test
+                if isinstance(t, ast.BoolOp) and isinstance(t.op, ast.And) and len(t.values) == 2:
+                    a, b = t.values
+                    def side(x):
+                        if isinstance(x, ast.Compare) and isinstance(x.ops[0], ast.In) and isinstance(x.left, ast.Name):
+                            return x.left.id, names_in(x.comparators[0])
+                        return None, set()
+                    (n1, s1), (n2, s2) = side(a), side(b)
+                    sides = {n1: s1, n2: s2}
+                    body_calls = {ast.unparse(c.func) for x in cur.body for c in ast.walk(x) if isinstance(c, ast.Call)}
+                    if sides.get('old_state') == MOVING and sides.get('new_state') == STALLED:
+                        found_int = 'self.belt.selective_interrupt' in body_calls
+                    if sides.get('old_state') == STALLED and sides.get('new_state') == MOVING:
+                        found_res = 'self.belt.resume_all_move_processes' in body_calls
+                cur = cur.orelse[0] if len(cur.orelse) == 1 and isinstance(cur.orelse[0], ast.If) else None
+        if not found_int:
+            why = 'the transition {MOVING, IDLE} → {STALLED_*} does not call belt.selective_interrupt: items keep moving on a stalled belt'
+        elif not found_res:
+            why = 'the transition {STALLED_*} → {MOVING, IDLE} does not call belt.resume_all_move_processes: items never resume'
+        # state assigned from the parameter
+        if not any(isinstance(n, ast.Assign) and ast.unparse(n).replace(' ', '') == 'self.state=new_state' for n in fi.node.body):
+            why = why or 'set_conveyor_state does not record the new state'
+        (r.ok if not why else r.fail)('C13.R3', key, 'interrupt on stall, resume on release, for both stall states' if not why else why, src(fi.module), fi.node.lineno)
+        # single writer
+        key2 = f'{ci.label}::state-single-writer'
+        bad = None
+        for mname, m in ci.methods.items():
+            if mname in ('__init__', 'set_conveyor_state'):
+                continue
+            for n in walk_no_nested(m.node):
+                if isinstance(n, ast.Assign) and any(self_attr(t) == 'state' for t in n.targets):
+                    bad = (m, n)
+        (r.ok if not bad else r.fail)('C13.R3', key2, 'self.state written only by set_conveyor_state' if not bad else
+                                      f'{bad[0].name} assigns self.state directly: the belt is not interrupted / resumed on that transition',
+                                      src(ci.module), bad[1].lineno if bad else ci.node.lineno)
+        # behaviour covers the three situations
+        b = ci.methods.get('behaviour')
+        key3 = f'{ci.label}.behaviour::covers-empty-moving-stalled'
+        if b is None:
+            r.fail('C13.R3', key3, 'behaviour missing', src(ci.module), ci.node.lineno)
+            continue
+        r.analysed_functions.add(b.key)
+        loops = [n for n in b.node.body if isinstance(n, ast.While)]
+        chain = None
+        for n in (loops[0].body if loops else []):
+            if isinstance(n, ast.If) and 'is_empty' in ast.unparse(n.test):
+                chain = n
+        why = None
+        if chain is None:
+            why = 'no dispatch on is_empty() in the behaviour loop'
+        else:
+            tests = []
+            cur = chain
+            while cur is not None:
+                tests.append((ast.unparse(cur.test).replace(' ', ''), cur.body))
+                cur = cur.orelse[0] if len(cur.orelse) == 1 and isinstance(cur.orelse[0], ast.If) else None
+            tt = [t for t, _ in tests]
+            tt = [t.replace('(not', 'not').replace('())', '()') for t in tt]
+            if not (len(tt) >= 3 and tt[0] == 'self.is_empty()' and tt[1] in ('notself.is_empty()andnotself.is_stalled()', 'notself.is_stalled()') and tt[2] == 'self.is_stalled()'):
+                why = f'the state dispatch is {tt}, expected empty / moving / stalled'
+            else:
+                want = [{'IDLE_STATE'}, {'MOVING_STATE'}, STALLED]
+                for (t, body), w in zip(tests, want):
+                    got = set()
+                    for x in body:
+                        for c in ast.walk(x):
+                            if isinstance(c, ast.Call) and ast.unparse(c.func) == 'self.set_conveyor_state':
+                                got |= names_in(c)
+                    if got != w:
+                        why = why or f'branch `{t}` sets {sorted(got)}, expected {sorted(w)}'
+        (r.ok if not why else r.fail)('C13.R3', key3, 'empty → IDLE, moving → MOVING, stalled → STALLED_(NON)ACCUMULATING' if not why else why, src(b.module), b.node.lineno)
+
+
+# ------------------------------------------------------------------------------------------- R4
+GATES = {
+    'base/belt_store.py': ('self.accumulation_mode_indicator==True', 'len(self.ready_items)==0'),
+    'base/slotted_belt_store.py': ('notself.noaccumulation_mode_on', 'self.one_item_inserted==False'),
+}
+
+
+def check_gate(p, r):
+    seen = set()
+    for s in belt_store_classes(p):
+        fi = s.methods['_do_reserve_put']
+        if fi.key in seen:
+            continue
+        seen.add(fi.key)
+        r.analysed_functions.add(fi.key)
+        key = f'{fi.key}::accumulation-gate'
+        ex = paths.Explorer(p, s.ci.key, tracked=set(s.lists), atomic=set(), unroll=1)
+        bad = None
+        n = 0
+        for pa in ex.paths(fi):
+            if pa.raises:
+                continue
+            evs = pa.events
+            gi = next((i for i, e in enumerate(evs) if e.kind == 'op' and e.list == RP and e.op == 'append'), None)
+            if gi is None:
+                continue
+            conds = [(e.text.replace(' ', ''), e.polarity) for e in evs[:gi] if e.kind == 'cond' and not e.d.get('synthetic')]
+            nonempty = ('self.items', True) in conds
+            if not nonempty:
+                continue
+            n += 1
+            gate = False
+            for t, pol in conds:
+                if ('accumulation_mode_indicator' in t and '==True' in t and pol) or (t == 'self.accumulation_mode_indicator' and pol):
+                    gate = True
+                if t.replace('len(self.ready_items)==0', 'EXITFREE') != t and pol:
+                    gate = True
+                if t == 'self.noaccumulation_mode_on' and pol is False:
+                    gate = True
+                if t in ('self.one_item_inserted==False',) and pol:
+                    gate = True
+                if t == 'notself.noaccumulation_mode_on' and pol:
+                    gate = True
+            if not gate:
+                bad = pa
+        if n == 0:
+            r.fail('C13.R4', key, 'no granting path on a non-empty belt', src(fi.module), fi.node.lineno)
+        elif bad:
+            r.fail('C13.R4', key, 'on a non-empty belt a space reservation is granted on a path that tests neither the accumulation flag / no-accumulation gate '
+                                  'nor that the exit is free: a stopped non-accumulating belt admits new items', src(fi.module), fi.node.lineno, bad.describe())
+        else:
+            r.ok('C13.R4', key, f'gate tested on {n} granting path(s)', src(fi.module), fi.node.lineno)
+
+
+# ------------------------------------------------------------------------------------------- R5
+def check_interrupters(p, reach, r):
+    belt_keys = set()
+    for s in belt_store_classes(p):
+        for c in p.mro(s.ci.key):
+            belt_keys.add(c.key)
+    n = 0
+    for fi in p.all_functions():
+        for c in walk_no_nested(fi.node):
+            if isinstance(c, ast.Call) and isinstance(c.func, ast.Attribute) and c.func.attr == 'interrupt':
+                n += 1
+                key = site(fi, c, 'interrupt')
+                inside = fi.cls is not None and (fi.module, fi.cls) in belt_keys
+                recv = c.func.value
+                tracked = False
+                if isinstance(recv, ast.Name):
+                    for m in walk_no_nested(fi.node):
+                        if isinstance(m, ast.Assign) and any(isinstance(t, ast.Name) and t.id == recv.id for t in m.targets):
+                            if 'process_info' in ast.unparse(m.value) or 'active_move_processes' in ast.unparse(m.value):
+                                tracked = True
+                        if isinstance(m, ast.For) and 'active_delayed_interrupt_processes' in ast.unparse(m.iter) and recv.id in ast.unparse(m.target):
+                            tracked = True
+                if inside and tracked:
+                    r.ok('C13.R5', key, 'belt store interrupting a process it tracks', src(fi.module), c.lineno)
+                else:
+                    r.fail('C13.R5', key, f'`{ast.unparse(c.func)}` outside the belt stores\' own process tracking: node and store processes have no '
+                                          f'Interrupt handling, an interrupt there kills the process', src(fi.module), c.lineno)
+    r.stats['interrupt_call_sites'] = n
